@@ -135,6 +135,75 @@ def lattice_first_steps(chk, tier, rng, seed):
         chk.nontriv(("lattice-step", n))
 
 
+def rotated_first_steps(chk, tier, rng, seed):
+    """The first step with measurement bases, for complex and mixed states at lattice points: the positive phase is the
+    one the gradient specifications (GradRBM.tla / GradDM.tla, templates evaluated by gradlib - the oracle of C03)
+    give for the batch with its bases; at k = 0 the negative phase is the mean effective-energy gradient of the
+    recorded negative rows.  So   theta_am' - theta_am = -lr (pos_am / m - mean_neg dE),   theta_ph' - theta_ph =
+    -lr pos_ph / m,   every value read from the NAMED parameter of its slot.  The comparisons C03 makes on the way are
+    made on a scratch Check and not reported here."""
+    import mpmath
+    import check_c03
+    sub = common.Check("C03", tier, seed)
+    count = [0]
+    biggest = [(0, 0, 0, 0)]
+
+    def slot(rbm, s):
+        p = dict(rbm.named_parameters())[s["p"]]
+        r = s.get("j", s.get("r"))
+        return (p[r - 1, s["i"] - 1] if p.dim() == 2 else p[(s["i"] or r) - 1]).item()
+
+    def hook(typ, st, rows, bases, tot, E, layout, ttol, pt):
+        if not any(all(ch == "Z" for ch in b) for b in bases):
+            return
+        m = len(rows)
+        lr = rng.choice([0.5, 0.1])
+        cfg = dict(type=typ, startEp=1, epochs=1, N=m, posB=m, negB=rng.choice([1, 2, 3]),
+                   data=[check_c03.idx_of(r) for r in rows], bases=[trainrun.basis_code(b) for b in bases], sched=False,
+                   entryStop=False, again="no", perms="all", cbs=[{"t": "rec"}], vals=[], vars=[])
+        before = {net: [slot(getattr(st, "rbm_" + net), s) for s in layout] for net in ("am", "ph")}
+        real = trainrun.real_run(cfg, plan={("BE", 1, 0, 1)}, seed=seed + count[0], k=0, lr=lr, nn_state=st)
+        count[0] += 1
+        if real["error"] is not None:
+            chk.violation("lattice-step-rotated:exception:" + type(real["error"]).__name__,
+                          dict(cfg=cfg, point=pt, error=repr(real["error"])))
+            return
+        cg = next(ev for ev in real["hist"] if ev["k"] == "CG")
+        neg = cg["neg"]
+        chk.evaluations += 1
+        for net in ("am", "ph"):
+            rbm = getattr(st, "rbm_" + net)
+            for q, s in enumerate(layout):
+                g = tot[net][q] / m - (sum(E[r][q] for r in neg) / len(neg) if net == "am" else 0)
+                want = -mpmath.mpf(lr) * g
+                got = mpmath.mpf(slot(rbm, s)) - mpmath.mpf(before[net][q])
+                tol_q = lr * ttol / m + 1e-12 + 1e-9 * abs(want)
+                biggest[0] = max(biggest[0], (abs(want) / tol_q, got, want, tol_q), key=lambda t: t[0])
+                if abs(got - want) > lr * ttol / m + 1e-12 + 1e-9 * abs(want):
+                    chk.violation("lattice-step-rotated:update:%s:%s" % (typ, net),
+                                  dict(point=pt, cfg=cfg, lr=lr, slot=s, got=mpmath.nstr(got, 17), expected=mpmath.nstr(want, 17),
+                                       neg_rows=neg, tolerance=lr * ttol / m))
+                    return
+        chk.nontriv(("lattice-step-rotated", typ, count[0]))
+
+    check_c03.STEP_HOOK = hook
+    try:
+        # (the thorough tier takes C03's quick-tier point sets: C03's own thorough run is 45 minutes)
+        check_c03.run_wave(sub, "quick", rng, seed, few=tier == "quick")
+        check_c03.run_dm(sub, "quick", rng, seed, few=tier == "quick")
+    finally:
+        check_c03.STEP_HOOK = None
+    chk.states += sub.states
+    chk.transitions += sub.transitions
+    chk.extra["rotated_first_steps"] = count[0]
+    if count[0] < 10:
+        raise common.MachineryError("only %d rotated first steps were taken" % count[0])
+    if not chk.violations:
+        # control: on the best-conditioned slot seen, an update that is off by one part in 10^4 is outside the tolerance
+        _, got, want, tol = biggest[0]
+        chk.control(abs(got - want * (1 + 1e-4)) > tol, "rotated first step: a step wrong by 1e-4 of its size was accepted")
+
+
 def run(tier, seed):
     chk = common.Check(PID, tier, seed)
     rng = random.Random(seed)
@@ -165,6 +234,7 @@ def run(tier, seed):
         return dict(k=n % 4, time_flag=False, opt_base=ob, opt_args=oa, sched_base=sb, sched_args=sa)
     tc.replay_behaviours(chk, behs, seed, nontrivial=lambda b: any(e["k"] == "OS" for e in b["hist"]), opts=opts)
     lattice_first_steps(chk, tier, rng, seed)
+    rotated_first_steps(chk, tier, rng, seed)
     # -- numeric traces
     runs = []
     extra = []
